@@ -110,6 +110,21 @@ func (t *TransactionManager) GetTransaction(id string) (*Transaction, error) {
 	return t.transaction, nil
 }
 
+// rollbackExpired rolls the given transaction back after its timeout elapsed. The timer might fire while the
+// transaction is being confirmed or canceled; if it is no longer the ongoing transaction, nothing is to be done.
+func (t *TransactionManager) rollbackExpired(ctx context.Context, trans *Transaction) error {
+	t.tmMutex.Lock()
+	defer t.tmMutex.Unlock()
+	if t.transaction != trans {
+		return nil
+	}
+	_, err := t.rollbacker.TransactionRollback(ctx, trans.GetRollbackTransaction(), false)
+
+	t.transaction = nil
+
+	return err
+}
+
 func (t *TransactionManager) Rollback(ctx context.Context, trans *Transaction) error {
 	verifhook.Point("tm.rollback.beforeLock")
 	t.tmMutex.Lock()
